@@ -36,6 +36,9 @@ type kase struct {
 	Bin  string `json:"bin,omitempty"`  // hex: binary (roundtrip)
 	Cfg  string `json:"cfg,omitempty"`  // hex: configuration (roundtrip) / data (xor)
 	Note string `json:"note,omitempty"`
+	// roundtrip: how source and destination of AppendConfig (and of the in-place
+	// strip) relate: "" distinct files | same | dst-symlink | dst-hardlink | src-symlink | relative
+	Alias string `json:"alias,omitempty"`
 }
 
 // outcome of one call: Code 0 = ok; 1 ErrNoEmbeddedConfig; 2 ErrConfigTooLarge;
@@ -54,6 +57,8 @@ type observed struct {
 	Size   outcome `json:"size"`
 	Copy   outcome `json:"copy"`
 	Append outcome `json:"append"` // roundtrip: Data = resulting file
+	SrcAfter string  `json:"src_after,omitempty"` // roundtrip: hex content of the source file after AppendConfig
+	Strip    outcome `json:"strip"`               // roundtrip: CopyBinaryWithoutConfig onto the embedded file itself; Data = the file afterwards
 	XOR    string  `json:"xor,omitempty"`
 }
 
@@ -140,11 +145,32 @@ func runCase(dir string, k kase) observed {
 		}
 		runReaders(dir, p, &obs)
 	case "roundtrip":
-		src := filepath.Join(dir, "src")
-		dst := filepath.Join(dir, "dst")
-		os.Remove(dst)
-		if err := os.WriteFile(src, unhex(k.Bin), 0o755); err != nil {
+		// two names for AppendConfig; with an alias mode they designate one file
+		os.RemoveAll(filepath.Join(dir, "rt"))
+		rt := filepath.Join(dir, "rt")
+		if err := os.Mkdir(rt, 0o755); err != nil {
 			panic(err)
+		}
+		src := filepath.Join(rt, "src")
+		dst := filepath.Join(rt, "dst")
+		real := src // the file that holds the binary
+		switch k.Alias {
+		case "same":
+			dst = src
+		case "dst-symlink":
+			must(os.Symlink(src, dst))
+		case "dst-hardlink":
+			// created after the binary is written, below
+		case "src-symlink":
+			real = dst
+			must(os.Symlink("dst", src))
+		case "relative":
+			must(os.Chdir(rt))
+			dst = "src" // relative spelling of the same file
+		}
+		must(os.WriteFile(real, unhex(k.Bin), 0o755))
+		if k.Alias == "dst-hardlink" {
+			must(os.Link(src, dst))
 		}
 		obs.Append = call(func() (outcome, error) {
 			if err := embed.AppendConfig(src, dst, unhex(k.Cfg)); err != nil {
@@ -156,11 +182,38 @@ func runCase(dir string, k kase) observed {
 			}
 			return outcome{Data: hex.EncodeToString(d)}, nil
 		})
+		if b, err := os.ReadFile(src); err == nil {
+			obs.SrcAfter = hex.EncodeToString(b)
+		}
 		if obs.Append.Code == 0 {
 			runReaders(dir, dst, &obs)
+			// strip in place, through the same pair of names
+			obs.Strip = call(func() (outcome, error) {
+				from, to := dst, dst
+				if k.Alias != "" {
+					from, to = dst, src
+				}
+				if err := embed.CopyBinaryWithoutConfig(from, to); err != nil {
+					return outcome{}, err
+				}
+				d, err := os.ReadFile(dst)
+				if err != nil {
+					return outcome{}, err
+				}
+				return outcome{Data: hex.EncodeToString(d)}, nil
+			})
+		}
+		if k.Alias == "relative" {
+			must(os.Chdir(dir))
 		}
 	}
 	return obs
+}
+
+func must(err error) {
+	if err != nil {
+		panic(err)
+	}
 }
 
 func childMain() {
@@ -298,6 +351,11 @@ func witnesses() []kase {
 		ks = append(ks, kase{Kind: "reader", File: hex.EncodeToString(append(append([]byte{}, body...), footer(n, embed.Magic[:])...)),
 			Note: fmt.Sprintf("witness footer length %d on a %d-byte file", n, len(body)+16)})
 	}
+	// embedding and stripping in place, through every way two names can designate one file
+	for _, a := range []string{"same", "dst-symlink", "dst-hardlink", "src-symlink", "relative"} {
+		ks = append(ks, kase{Kind: "roundtrip", Bin: hex.EncodeToString(bytes.Repeat([]byte{0x7f, 'E', 'L', 'F'}, 10)), Cfg: hex.EncodeToString([]byte("agent:\n  id: auto\n")), Alias: a,
+			Note: "in-place embed, alias mode " + a})
+	}
 	// file that is exactly one footer
 	ks = append(ks, kase{Kind: "reader", File: hex.EncodeToString(footer(0, embed.Magic[:])), Note: "bare footer len 0"})
 	ks = append(ks, kase{Kind: "reader", File: hex.EncodeToString(footer(1, embed.Magic[:])), Note: "bare footer len 1"})
@@ -348,7 +406,11 @@ func main() {
 			if r.Chance(1, 8) && len(bin) >= 8 { // binary that itself looks embedded
 				copy(bin[len(bin)-8:], embed.Magic[:])
 			}
-			cases = append(cases, kase{Kind: "roundtrip", Bin: hex.EncodeToString(bin), Cfg: hex.EncodeToString(cfg)})
+			alias := ""
+			if i%2 == 1 { // every second pair embeds and strips in place, through one of the ways two names can mean one file
+				alias = []string{"same", "dst-symlink", "dst-hardlink", "src-symlink", "relative"}[(i/2)%5]
+			}
+			cases = append(cases, kase{Kind: "roundtrip", Bin: hex.EncodeToString(bin), Cfg: hex.EncodeToString(cfg), Alias: alias})
 		}
 		for i := 0; i < nXor; i++ {
 			cases = append(cases, kase{Kind: "xor", Cfg: hex.EncodeToString(r.Bytes(r.Pick(0, 1, 31, 32, 33, 64, 65, 150)))})
@@ -360,7 +422,7 @@ func main() {
 	var coq []string
 	for i, k := range cases {
 		o := obs[i]
-		rep := map[string]any{"kind": k.Kind, "file": k.File, "bin": k.Bin, "cfg": k.Cfg, "note": k.Note, "observed": o}
+		rep := map[string]any{"kind": k.Kind, "file": k.File, "bin": k.Bin, "cfg": k.Cfg, "note": k.Note, "alias": k.Alias, "observed": o}
 		switch k.Kind {
 		case "xor":
 			c.Case("xor/"+k.Cfg, len(k.Cfg) > 0, rep)
@@ -381,7 +443,8 @@ func main() {
 			coq = append(coq, fmt.Sprintf("CReader \"%s\" (%s) %s (%d%%N, (%d)%%Z) %s", k.File, coqHas(o.Has), coqOutcome(o.Read, true), o.Size.Code, o.Size.Int, coqOutcome(o.Copy, true)))
 		case "roundtrip":
 			bin, cfg := unhex(k.Bin), unhex(k.Cfg)
-			c.Case("roundtrip/"+k.Bin+"/"+k.Cfg, len(cfg) > 0, rep)
+			c.Case("roundtrip/"+k.Alias+"/"+k.Bin+"/"+k.Cfg, len(cfg) > 0, rep)
+			c.Count("roundtrip/alias=" + k.Alias)
 			c.Count(fmt.Sprintf("roundtrip/append=%d", o.Append.Code))
 			already := len(bin) >= 16 && bytes.Equal(bin[len(bin)-8:], embed.Magic[:])
 			switch {
@@ -395,6 +458,17 @@ func main() {
 				if !(o.Copy.Code == 0 && bytes.Equal(unhex(o.Copy.Data), bin)) {
 					c.Fail("embed-roundtrip-strip", fmt.Sprintf("stripping the embedded config did not give back the %d-byte binary (code %d)", len(bin), o.Copy.Code), k)
 				}
+				if !(o.Strip.Code == 0 && bytes.Equal(unhex(o.Strip.Data), bin)) {
+					c.Fail("embed-roundtrip-strip-in-place", fmt.Sprintf("embedding (alias mode %q) and stripping in place left %d bytes instead of the %d-byte binary (code %d %s)",
+						k.Alias, len(o.Strip.Data)/2, len(bin), o.Strip.Code, o.Strip.Msg), k)
+				}
+				wantSrc := bin
+				if k.Alias != "" {
+					wantSrc = unhex(o.Append.Data)
+				}
+				if !bytes.Equal(unhex(o.SrcAfter), wantSrc) {
+					c.Fail("embed-append-damaged-source", fmt.Sprintf("after AppendConfig (alias mode %q) the source file holds %d bytes", k.Alias, len(o.SrcAfter)/2), k)
+				}
 				if !(o.Size.Code == 0 && o.Size.Int == int64(len(bin))) {
 					c.Fail("embed-roundtrip-size", fmt.Sprintf("original size %d reported for a %d-byte binary", o.Size.Int, len(bin)), k)
 				}
@@ -402,10 +476,10 @@ func main() {
 				c.Fail("embed-append-refused", fmt.Sprintf("AppendConfig refused a binary that has no trailer (code %d: %s)", o.Append.Code, o.Append.Msg), k)
 			}
 			if o.Append.Code == 0 {
-				coq = append(coq, fmt.Sprintf("CRound \"%s\" \"%s\" %s (%s) %s (%d%%N, (%d)%%Z) %s", k.Bin, k.Cfg, coqOutcome(o.Append, true),
-					coqHas(o.Has), coqOutcome(o.Read, true), o.Size.Code, o.Size.Int, coqOutcome(o.Copy, true)))
+				coq = append(coq, fmt.Sprintf("CRound %s \"%s\" \"%s\" %s (%s) %s (%d%%N, (%d)%%Z) %s \"%s\" %s", vh.CoqBool(k.Alias != ""), k.Bin, k.Cfg, coqOutcome(o.Append, true),
+					coqHas(o.Has), coqOutcome(o.Read, true), o.Size.Code, o.Size.Int, coqOutcome(o.Copy, true), o.SrcAfter, coqOutcome(o.Strip, true)))
 			} else {
-				coq = append(coq, fmt.Sprintf("CRound \"%s\" \"%s\" %s (0%%N, false) (0%%N, \"\") (0%%N, 0%%Z) (0%%N, \"\")", k.Bin, k.Cfg, coqOutcome(o.Append, false)))
+				coq = append(coq, fmt.Sprintf("CRound %s \"%s\" \"%s\" %s (0%%N, false) (0%%N, \"\") (0%%N, 0%%Z) (0%%N, \"\") \"%s\" (0%%N, \"\")", vh.CoqBool(k.Alias != ""), k.Bin, k.Cfg, coqOutcome(o.Append, false), o.SrcAfter))
 			}
 		}
 	}
